@@ -497,7 +497,12 @@ class Sim:
     def op_reset(self):
         v, m, vid = self.pick_vec()
         self.log.ev("reset", vid)
-        v.reset()
+        try:
+            v.reset()
+        except Exception as e:
+            raise Violation("reset_failed", f"vector#{vid}.reset() raised "
+                            f"{e!r} (defaults {m.defaults}, accept_nan "
+                            f"{m.accept_nan})", "reset")
         m.reset()
         self.changed = True
 
@@ -699,25 +704,39 @@ class Sim:
             vals = [gen_value(cs, m.mins[i], m.maxs[i], nanw, f"e{i}")[0]
                     for i in range(m.n)]
             self.log.ev("tset", tid, cls, how, vals)
-            realvec.values = self.as_buf(vals, "tv")
+            try:
+                realvec.values = self.as_buf(vals, "tv")
+            except Exception as e:
+                raise Violation("valid_assignment_rejected",
+                                f"{cls}#{tid} {how} = {vals} raised {e!r}",
+                                "tset")
             m.assign_all(vals)
         else:
             i = cs.draw("i", m.n)
             x, c = gen_value(cs, m.mins[i], m.maxs[i], nanw)
             self.log.ev("tset", tid, cls, how, m.names[i], x)
-            if how.endswith("attr"):
-                setattr(t, m.names[i], x)
-            elif how == "p_vec_key":
-                t.params[m.names[i]] = x
-            else:
-                t[m.names[i]] = x
+            try:
+                if how.endswith("attr"):
+                    setattr(t, m.names[i], x)
+                elif how == "p_vec_key":
+                    t.params[m.names[i]] = x
+                else:
+                    t[m.names[i]] = x
+            except Exception as e:
+                raise Violation("valid_assignment_rejected",
+                                f"{cls}#{tid} {how} {m.names[i]} = {x} raised "
+                                f"{e!r}", "tset")
             m.assign_one(i, x)
         self.changed = True
 
     def op_treset(self):
         t, pm, cm, tid, cls = self.pick_tr()
         self.log.ev("treset", tid, cls)
-        t.reset()
+        try:
+            t.reset()
+        except Exception as e:
+            raise Violation("reset_failed", f"{cls}#{tid}.reset() raised {e!r}",
+                            "treset")
         pm.reset()
         self.changed = True
 
